@@ -741,7 +741,17 @@ def rows_oracle(opt, cont, names, g, case, unit, iop, row_cfg=None, reconf=False
                 fails.append({"what": "reload(i) did not restore the row's active flags", "at": iop, "row": i,
                               "va": [va, va_row], "ta": [ta, ta_row]})
                 continue
+            def agree(at):
+                r_, errs_, p_, scale_ = independent(g2, case, at, ta_row,
+                                                    None if row_cfg is None or i >= len(row_cfg) else row_cfg[i])
+                ok_p = (math.isnan(p_) and math.isnan(float(L["penalty"][i]))) or \
+                    abs(p_ - float(L["penalty"][i])) <= 1e-9 * max(p_, float(L["penalty"][i])) + 1e-9 * scale_ + 1e-300
+                return ok_p and all((math.isnan(a) and math.isnan(float(b))) or
+                                    abs(a - float(b)) <= 1e-9 * (abs(a) + abs(float(b))) + 1e-12 * scale_ + 1e-300
+                                    for a, b in zip(r_, L["targets"][i]))
             try:
+                if not unit and kn != kn_row and agree(kn_row):
+                    continue    # reload moved the knobs by the rounding of the weight scaling: the row is right at its own knobs
                 r, errs, p, scale = independent(g2, case, kn, ta_row,
                                                 None if row_cfg is None or i >= len(row_cfg) else row_cfg[i])
             except UserFault:
